@@ -95,6 +95,10 @@ def main():
         i = p['id']
         if i in CHECKS:
             tech, text, note, ref = CHECKS[i]
+            tech += ('; histories (printed / copied / edited / re-used objects, re-entrant callbacks, designed coincidences) as plain-data cases'
+                     + ('' if i == 'C19' else '; the generated cases again in overlapping threads (oracle = sequential result)')
+                     + '; second pass of all sub-checks under python -O; odd shards under verbose logging with warnings as errors')
+            note += ' Cross-cutting dimensions of DESIGN.md 9 (session 4) apply: formatting between operations, two threads (probabilistic: the schedule is the interpreter\'s), python -O pass, logging / warnings environment.'
             checks.append({
                 'property_id': i,
                 'quick_cmd': f'{PY} /verif/run.py {i} --tier quick',
